@@ -215,16 +215,28 @@ class F2s(PathAnalysis):
                     facts.add(("len", v, render(r[3][0])))
                 if n[1] == "=" and is_int(n[3]):
                     facts.add(("ub", v, int_val(n[3])))
+                # `p = G[i]` (possibly through a chained assignment) with G a global 2-d char table: p points at a row of G
+                rr = r
+                while kind(rr) == "asg":
+                    rr = strip(rr[3])
+                rowN = _global_row_size(self.prog, rr)
+                if n[1] == "=" and rowN:
+                    facts.add(("row", v, rowN))
             elif n[0] == "call" and n[1] in COPYFN and n[3]:
                 d = strip(n[3][0])
                 while kind(d) == "cast":
                     d = strip(d[2])
-                if kind(d) != "mem":
+                N = None
+                if kind(d) == "mem":
+                    ti = self.prog.types.get(d[4])
+                    if ti and ti[0] == "arr":
+                        N = ti[1]
+                elif kind(d) == "var":
+                    rows = [f[2] for f in facts if f[0] == "row" and f[1] == d[1]]
+                    if rows:
+                        N = min(rows)
+                if N is None:
                     continue
-                ti = self.prog.types.get(d[4])
-                if not ti or ti[0] != "arr":
-                    continue
-                N = ti[1]
                 ok, why = self._bounded(n, N, facts, env)
                 k = (render(d), n[5])
                 cur = self.sites.get(k)
@@ -293,12 +305,30 @@ class F2s(PathAnalysis):
         return False, "%s with length `%s` that is not bounded by the %d-byte destination on this path" % (nm, render(ln)[:40], N)
 
 
+def _global_row_size(prog, e):
+    """inner dimension B when e is `G[i]` with G a global `char G[A][B]`"""
+    import re
+    e = strip(e)
+    if kind(e) != "idx":
+        return None
+    b = strip(e[1])
+    if kind(b) != "var" or b[2] != "g":
+        return None
+    for g in prog.globals.get(b[1], []):
+        m = re.match(r"^(?:unsigned |signed )?char\s*\[(\d+)\]\[(\d+)\]$", g.get("type", ""))
+        if m:
+            return int(m.group(2))
+    return None
+
+
 def rule_F2_strings(ctx):
     prog = ctx.prog
     n = 0
     for f in prog.lib_funcs():
-        hit = False
+        hit = any(x[0] == "idx" and _global_row_size(prog, x) for _b, _i, _s, x in f.nodes(True))
         for _, _, _, c in f.calls():
+            if hit:
+                break
             if c[1] in COPYFN and c[3]:
                 d = strip(c[3][0])
                 while kind(d) == "cast":
